@@ -70,3 +70,44 @@ func (s *dlStream) SetReadDeadline(t time.Time) error  { s.arm(t); return nil }
 func (s *dlStream) SetWriteDeadline(t time.Time) error { s.arm(t); return nil }
 func (s *dlStream) Close() error                       { s.stop(); return s.Stream.Close() }
 func (s *dlStream) Reset() error                       { s.stop(); return s.Stream.Reset() }
+
+// breakHost makes the first stream it serves fail after n successful writes (response frames):
+// an honest peer behind a transport that breaks in the middle of an answer.
+type breakHost struct {
+	host.Host
+	n    int
+	used sync.Mutex
+	done bool
+}
+
+func (h *breakHost) SetStreamHandler(pid protocol.ID, handler network.StreamHandler) {
+	h.Host.SetStreamHandler(pid, func(s network.Stream) {
+		h.used.Lock()
+		first := !h.done
+		h.done = true
+		h.used.Unlock()
+		if first {
+			handler(&breakStream{Stream: s, left: h.n})
+			return
+		}
+		handler(s)
+	})
+}
+
+type breakStream struct {
+	network.Stream
+	mu   sync.Mutex
+	left int
+}
+
+func (s *breakStream) Write(p []byte) (int, error) {
+	s.mu.Lock()
+	if s.left <= 0 {
+		s.mu.Unlock()
+		_ = s.Stream.Reset()
+		return 0, network.ErrReset
+	}
+	s.left--
+	s.mu.Unlock()
+	return s.Stream.Write(p)
+}
